@@ -219,10 +219,19 @@ async def _use(factory, case, log):
     factory = functools.partial(factory, *cargs, **ckwargs)
     try:
         if mode == "with":
-            async with factory() as bound:
+            manager = factory()
+            async with manager as bound:
                 log.append(("bound", bound))
                 if block_exc is not None:
                     raise block_exc
+            if case.get("reuse") and block != "GeneratorExit":
+                # a generator-based manager is single use: entering the used-up object again is refused (each
+                # implementation with its own exception type) - it does not quietly run the setup a second time
+                try:
+                    async with manager:
+                        log.append(("used-up-manager-entered-again",))
+                except Exception:
+                    log.append(("reuse-refused",))
         else:
             @factory()
             async def body(*args, **kwargs):
@@ -380,7 +389,7 @@ def variations(draw):
             "susp": draw(st.integers(0, 2)), "value": draw(st.sampled_from(["VALUE", None, 0, ""])),
             "use": draw(st.sampled_from(["with", "with", "decorator"])),
             "call": draw(st.sampled_from(sorted(CALLS))), "body_call": draw(st.sampled_from(sorted(CALLS))),
-            "in_handler": draw(st.booleans()),
+            "in_handler": draw(st.booleans()), "reuse": draw(st.sampled_from([False, False, True])),
             "given_as": draw(st.sampled_from(sorted(PROGRAM_FLAVOURS) + ["def", "def"]))}
 
 
